@@ -420,6 +420,43 @@ func runC01(c *Ctx) error {
 			}
 		}
 	}
+	// ---- (E) bounds are DECIMAL numbers however they are spelled: leading zeros, an explicit plus sign
+	for _, rl := range sizeRules {
+		for _, sp := range []struct{ pre string }{{"0"}, {"00"}, {"+"}, {"+0"}} {
+			for _, val := range []int64{7, 8, 9, 10, 15, 16, 17, 20, 21} {
+				marker++
+				mk := fmt.Sprintf("M%d", marker)
+				lo2, hi2 := int64(10), int64(20)
+				switch rl {
+				case "le", "lt":
+					lo2 = 0
+				case "to", "oto":
+				default:
+					hi2 = 0
+				}
+				var text string
+				switch rl {
+				case "to", "oto":
+					text = fmt.Sprintf("%s=%s%d~%s%d", rl, sp.pre, lo2, sp.pre, hi2)
+				case "le", "lt":
+					text = fmt.Sprintf("%s=%s%d", rl, sp.pre, hi2)
+				default:
+					text = fmt.Sprintf("%s=%s%d", rl, sp.pre, lo2)
+				}
+				text += "|" + mk
+				var v interface{} = int(val)
+				if val%2 == 0 {
+					v = uint16(val)
+				}
+				call := &walkCall{Entry: "var", VarRules: []string{text}, Src: v}
+				spec := fmt.Sprintf("SSize %s %s %s %s %s", sizeRuleCtor[rl], galZ(lo2), galZ(hi2), galVal(reflect.ValueOf(v), nil), gal.Str(mk))
+				term, desc := call.caseTerm([]string{spec})
+				desc["rule"] = text
+				w.Add("CW ("+term+")", desc, fmt.Sprintf("spelled-bounds:%s:%s:%d", rl, sp.pre, val))
+				w.Count("directed.spelled-bounds")
+			}
+		}
+	}
 	w.Extra["evaluations"] = sweepTotal + marker
 	return w.Flush()
 }
